@@ -458,6 +458,9 @@ func (p *sparser) primary() SExpr {
 			p.expect(")")
 			return e
 		}
+		if t.text == "@" && p.peek().kind == "id" {
+			return &SIdent{"@" + p.next().text}
+		}
 	}
 	p.fail("unexpected token %q", t.text)
 	return nil
